@@ -42,7 +42,7 @@ CLAIMS = {
         "engine": "mirsym-z3",
         "text": "Solver verdict (z3 over the MIR of the real DfsScheduler, regenerated from /repo on every run) for the scheduler side of the property: "
         "(a) whole runs over every choice tree within the bound (depth <= 2 with <= 3 tasks offered per decision and any usize iteration bound, depth <= 3 "
-        "with <= 2 tasks; thorough: depth 4 x 2 tasks, depth 3 x 2 and depth 2 x 4 with any bound; branching may depend on all earlier choices; task ids symbolic): "
+        "with <= 2 tasks; thorough: depth 3 x 2 and depth 2 x 4 with any bound; branching may depend on all earlier choices; task ids symbolic): "
         "every maximal sequence of choices is run exactly once, the run then stops, with a bound exactly min(bound, #schedules) distinct schedules are run, "
         "only offered tasks are chosen, the scheduler never panics, and seed and draws are the same in every execution; (b) one call of next_task / "
         "new_execution from an ARBITRARY scheduler state satisfying the representation invariant (stack length <= 3 quick / 5-6 thorough, symbolic contents): "
